@@ -103,7 +103,9 @@ fdprintf(const char *fmt, ...)
 	if (UNLIKELY((size_t)tp + fd_aux.bi >= sizeof(fd_aux.buf))) {
 		/* yay, finally some write()ing */
 		fdflush();
-		/* ... try the formatting again */
+		/* ... try the formatting again, from the first argument */
+		va_end(vap);
+		va_start(vap, fmt);
 		tp = vsnprintf(
 			fd_aux.buf + fd_aux.bi, sizeof(fd_aux.buf) - fd_aux.bi,
 			fmt, vap);
